@@ -34,19 +34,38 @@ COMPONENTS = {
     "stub": ["election", "voting system (lost CVRs)", "auditors (unfindable cards)", "manifests"],
 }
 PROBES = ["per-contest shortfalls differ", "contest bound unspecified", "zero phantoms needed", "style off", "phantom pooled",
-          "phantom CVR sampled", "unfindable card sampled", "phantom batch hit", "phantom in Hart lookup"]
+          "phantom CVR sampled", "unfindable card sampled", "phantom batch hit", "phantom in Hart lookup",
+          "phantom batch looked up through Hart", "phantom creation repeated on its own output (style off)",
+          "same contests went through phantom creation before (partial delivery)"]
 
 
 def generate(rng, tier):
     cfg = TIERS[tier]
-    return G.gen_case(rng, max_cards=cfg["max_cards"], max_rounds=3, p_shortfall=0.6, rates=[0.0, 0.1, 0.3, 0.6],
+    case = G.gen_case(rng, max_cards=cfg["max_cards"], max_rounds=3, p_shortfall=0.6, rates=[0.0, 0.1, 0.3, 0.6],
                       audit_types=[(W.COMPARISON, 5), (W.ONEAUDIT, 3), (W.POLLING, 1)],
                       homogeneous_when_style_off=rng.chance(0.5))
+    case["pre_delivery"] = rng.chance(0.3)
+    return case
 
 
 class Obs:
     def __init__(self, out):
         self.out = out
+
+    def before_phantoms(self, run, contests):
+        """an earlier, partial delivery of CVRs went through phantom creation with the same Contest objects"""
+        if not run.case.get("pre_delivery") or len(run.cvr_list) < 2:
+            return
+        ns = run.ns
+        part = W.mk_cvrs(ns, run.case["cvrs"][: max(1, len(run.case["cvrs"]) // 2)])
+        try:
+            with W.quiet():
+                ns.CVR.make_phantoms(audit=run.audit, contests=contests, cvr_list=part, prefix="early-1-")
+            self.out.probe("same contests went through phantom creation before (partial delivery)")
+            self.out.ev("pre_delivery", len(part))
+            # user-specified bounds are what they were; an unspecified bound has by now been set to the stratum bound
+        except Exception as e:
+            self.out.raised("make_phantoms(partial delivery)", e)
 
     # ---- accounting
     def after_phantoms(self, run, contests):
@@ -113,6 +132,18 @@ class Obs:
         if new:
             out.nontrivial = True
             out.fault("F2/F8 cards without CVR -> phantom CVRs", len(new))
+        if not style and not out.violations:
+            # without style information the accounting is over all records: a list that already holds its phantoms
+            # (the call repeated on its own output) needs none
+            try:
+                with W.quiet():
+                    lst2, n2 = run.ns.CVR.make_phantoms(audit=run.audit, contests=contests, cvr_list=list(cvrs), prefix="again-1-")
+                out.probe("phantom creation repeated on its own output (style off)")
+                if len(lst2) != max_cards or int(n2) != 0:
+                    out.violate("C08.a", "nostyle/repeated", f"phantom creation repeated on a list that already accounts for the stratum "
+                                                             f"bound {max_cards}: {len(lst2)} records, {n2} more phantoms")
+            except Exception as e:
+                out.raised("make_phantoms(again)", e)
 
     # ---- lookup
     def after_lookup(self, run, r, idx, cards, sample_order, cvr_sample, mvr_ph):
@@ -188,8 +219,45 @@ class Obs:
                                         f"phantom CVR {c.id} compared with a manual record of assorter value {a_m}: "
                                         f"overstatement {om!r}, expected 1/2 - {a_m}")
 
+    def manifest_lookups(self, run):
+        """C08.g for lookups from the manifest: phantom manual records exactly for the numbers in the phantom batch"""
+        out, ns = self.out, run.ns
+        batches = run.case["batches"]
+        total_real = sum(b["n"] for b in batches)
+        total = total_real + max(0, run.shortfall_manifest)
+        if total == 0:
+            return
+        want = max(0, run.shortfall_manifest)
+        try:
+            with W.quiet():
+                _c, _o, ph = ns.Dominion.sample_from_manifest(run.manifest, list(range(1, total + 1)))
+            if len(ph) != want or any(not m.phantom for m in ph):
+                out.violate("C08.g", "dominion-manifest", f"{len(ph)} phantom manual records for a phantom batch of {want} cards")
+        except Exception as e:
+            out.raised("Dominion.sample_from_manifest", e)
+        rows = [{"Container": "box", "Tabulator": b["tab"], "Batch Name": f"{b['tab']}x{b['batch']}", "Number of Ballots": b["n"]}
+                for b in batches]
+        if want:
+            rows.append({"Container": "None", "Tabulator": "phantom", "Batch Name": "1", "Number of Ballots": want})
+        hm = pd.DataFrame(rows)
+        hm["cum_cards"] = hm["Number of Ballots"].cumsum()
+        for col in ["Container", "Tabulator", "Batch Name", "Number of Ballots"]:
+            hm[col] = hm[col].astype(str)
+        try:
+            with W.quiet():
+                hc, _o, hph = ns.Hart.sample_from_manifest(hm, list(range(0, total)))
+            if want:
+                out.probe("phantom batch looked up through Hart")
+            if len(hph) != want or any(not m.phantom for m in hph):
+                out.violate("C08.g", "hart-manifest", f"{len(hph)} phantom manual records for a phantom batch of {want} cards "
+                                                      f"(batch sizes {[b['n'] for b in batches]})")
+        except Exception as e:
+            out.raised("Hart.sample_from_manifest", e)
+            out.violate("C08.g", f"hart-manifest-raised-{type(e).__name__}", f"Hart.sample_from_manifest raised {e!r}")
+
     def after_setup(self, run):
         out = self.out
+        self.manifest_lookups(run)
         if run.polling:
             return
         self.score_every_phantom(run)
@@ -268,4 +336,8 @@ def execute(case):
 
 
 def reducers(case):
+    if case.get("pre_delivery"):
+        c = copy.deepcopy(case)
+        c["pre_delivery"] = False
+        yield c
     yield from G.reducers(case)
